@@ -84,7 +84,7 @@ class FPFormat:
                 ' expected "stochastic" or "nearest"'
             )
         q = x.to(torch.float32)
-        q = torch.clip(x, -absmax, absmax)
+        q = torch.clip(q, -absmax, absmax)
         q /= downscale
         q = ((q.view(torch.int32) + offset) & ~mask).view(torch.float32)
         q *= downscale
